@@ -61,6 +61,7 @@ type Engine struct {
 	uf         map[string]bool
 	curFunc    string
 	bytesAxiom bool
+	funcLemmas map[string][]string
 	onStore    func(st *State, key, ref string)
 	onBaseRefArray func(arr string)
 	funcFacts  map[string][]string // per function: facts about the entry heap, added to every obligation of that function
@@ -70,6 +71,7 @@ type axiomTerm struct {
 	name string
 	term string
 	src  string
+	only string
 }
 
 func newEngine() *Engine {
